@@ -164,6 +164,10 @@ fn judge(c: &Case, cls: &mut Classifier) -> Verdict {
         inv = inv.arg("--allow-missing-relay-protection");
     }
     let file;
+    if !c.flag && c.account_index % 2 == 1 {
+        // variables named like the flags are not "the explicit override flag"
+        inv = inv.env("ALLOW_MISSING_RELAY_PROTECTION", "true").env("ALLOW_MISSING_RELAY_PROTECTION_FLAG", "1");
+    }
     if c.stdin {
         inv = inv.arg("-").stdin(c.tx.doc.as_bytes());
         file = None;
@@ -387,7 +391,7 @@ fn judge_v(c: &VCase, cls: &mut Classifier) -> Verdict {
 }
 
 pub fn run(ctx: &mut Ctx) {
-    ctx.rule = "CLI `sign transaction`: records of all three kinds (small calldata) with chain id from {absent,0,1,2^32,2^63,2^64-1,2^64,2^128,c_max-1,c_max,c_max+1,2^255,2^256-1,boundary strategy}, override flag present/absent, --signature-only or full output, file or stdin, random mnemonic/account. Oracle: no chain id without flag -> ordinary error and empty stdout; with flag v in {27,28}; legacy c <= c_max: strict-decoded v == 35+2c+yParity as an exact integer and the signature recovers to the reference-derived signer over the reference EIP-155 digest; typed: first field == c; the same (r,s,yParity) must not recover to the signer under another chain id; legacy c > c_max: full mode may only fail with an ordinary error, signature-only may fail or sign correctly; a panic is a violation. In-process: Signature::v and the legacy digest for generated (c, parity). Thorough repeats the CLI cases on the plain release build. Non-trivial: chain id other than 1 or parity 1; distinct by (document, mnemonic, mode, flag).".into();
+    ctx.rule = "CLI `sign transaction`: records of all three kinds (small calldata) with chain id from {absent,0,1,2^32,2^63,2^64-1,2^64,2^128,c_max-1,c_max,c_max+1,2^255,2^256-1,boundary strategy}, override flag present/absent (without the flag, half of the runs carry environment variables named like the flag, which must not count as the explicit override), --signature-only or full output, file or stdin, random mnemonic/account. Oracle: no chain id without flag -> ordinary error and empty stdout; with flag v in {27,28}; legacy c <= c_max: strict-decoded v == 35+2c+yParity as an exact integer and the signature recovers to the reference-derived signer over the reference EIP-155 digest; typed: first field == c; the same (r,s,yParity) must not recover to the signer under another chain id; legacy c > c_max: full mode may only fail with an ordinary error, signature-only may fail or sign correctly; a panic is a violation. In-process: Signature::v and the legacy digest for generated (c, parity). Thorough repeats the CLI cases on the plain release build. Non-trivial: chain id other than 1 or parity 1; distinct by (document, mnemonic, mode, flag).".into();
     ctx.assumptions = vec!["reference key derivation and recovery (refimpl) are correct (self-tested)".into()];
     set_cli(ctx.cli.clone(), ctx.cli_plain.clone(), ctx.root.clone());
     ctx.replay_known_and_regressions(&replay);
